@@ -2,19 +2,11 @@ package main
 
 import (
 	"fmt"
-	"math/big"
-
-	sdkmath "cosmossdk.io/math"
-	sdk "github.com/cosmos/cosmos-sdk/types"
-	distrtypes "github.com/cosmos/cosmos-sdk/x/distribution/types"
 
 	"verif/harness/props"
 )
 
 func main() {
-	props.ProbeRewardsBurn(func(s string, a ...interface{}) { fmt.Printf(s+"\n", a...) })
-	_ = big.NewInt
-	_ = sdkmath.NewInt
-	_ = sdk.NewCoin
-	_ = distrtypes.ModuleName
+	n := props.UpgradeHandlerOutcomes(func(s string, a ...interface{}) { fmt.Printf(s+"\n", a...) }, 400, 6)
+	fmt.Println("distinct outcomes:", len(n))
 }
